@@ -62,7 +62,7 @@ StrIntTab == [t \in {ToString(i) : i \in IR} |-> CHOOSE i \in IR : ToString(i) =
 \* character that cannot continue an integer)
 SpecialIntTab == (NA :> ITEST) @@ ("0.5" :> 0) @@ ("0.25" :> 0) @@ ("1.5" :> 1) @@ ("2.5" :> 2)
               @@ ("1.23456789012345" :> 1) @@ ("-1.23456789012345" :> -1) @@ ("1e+300" :> 1) @@ ("1e-300" :> 1)
-              @@ ("-1e+300" :> -1) @@ ("1e308" :> 1) @@ ("1e+20" :> 1) @@ ("22.5" :> 22) @@ ("1e-05" :> 1) @@ ("2147483647" :> IMAX) @@ ("0.75" :> 0) @@ ("0.125" :> 0)
+              @@ ("-1e+300" :> -1) @@ ("1e308" :> 1) @@ ("1e+20" :> 1) @@ ("22.5" :> 22) @@ ("*" :> 0) @@ ("5e+299" :> 5) @@ ("2.5e+299" :> 2) @@ ("0.617283945061725" :> 0) @@ ("0.308641972530863" :> 0) @@ ("-0.25" :> 0) @@ ("5e-301" :> 5) @@ ("2.5e-301" :> 2) @@ ("1e-05" :> 1) @@ ("2147483647" :> IMAX) @@ ("0.75" :> 0) @@ ("0.125" :> 0)
               @@ ("-0.5" :> 0) @@ ("2.46913578024690" :> 2) @@ ("2.4691357802469" :> 2) @@ ("12.3456789012345" :> 12)
 IsNum(t) == t \in DOMAIN StrIntTab \/ t \in DOMAIN SpecialIntTab
 IntOf(t) == IF t \in DOMAIN StrIntTab THEN StrIntTab[t] ELSE SpecialIntTab[t]
@@ -478,6 +478,7 @@ R_Model(L, md, s0) ==
 RotToks(nd, ang) ==
   CASE nd = 2 /\ ang = "90" -> <<"0", "1", "-1", "0">>
     [] nd = 3 /\ ang = "90" -> <<"0", "1", "0", "-1", "0", "0", "0", "0", "1">>
+    [] nd = 1 -> <<"1">>
     [] nd = 2 -> <<"1", "0", "0", "1">>
     [] OTHER  -> <<"1", "0", "0", "0", "1", "0", "0", "0", "1">>
 \* anisotropy ratios: largest = 1, the others powers of two (products with the range are exact)
@@ -763,6 +764,373 @@ PolyLine2DDoms(st) == Cst(2 * st.np, CV)
 PolyLine2DBuild(st, v) == [xy |-> [p \in 1..st.np |-> <<v[2 * p - 1], v[2 * p]>>]]
 
 -----------------------------------------------------------------------------
+(* DbLine (src/Db/DbLine.cpp) and DbGraphO (src/Db/DbGraphO.cpp): header + Db part *)
+
+NDimOf(locs) == Cardinality({k \in DOMAIN locs : locs[k] \in {"x1", "x2", "x3"}})
+W_DbLine(o) == <<RecI(TRUE, o.ndim), RecI(TRUE, Len(o.lines))>>
+               \o Flat([l \in DOMAIN o.lines |-> <<RecI(TRUE, Len(o.lines[l])), VecI(FALSE, o.lines[l])>>])
+               \o W_DbPart(o)
+RECURSIVE R_Lines(_, _, _, _, _)
+R_Lines(L, md, s, k, n) ==
+  IF k > n \/ ~s.ok THEN s
+  ELSE LET a == RdI(L, md, s, "tmp")
+           b == RdVec(L, md, a, "vec", "i", Gd(a, "tmp", 0))
+       IN IF ~b.ok THEN b ELSE R_Lines(L, md, Put(b, "lines", Append(s.o.lines, b.o.vec)), k + 1, n)
+R_DbLine(L, md, s0) ==
+  LET s1 == RdI(L, md, s0, "ndim")
+      s2 == RdI(L, md, s1, "nbline")
+      nb == Gd(s2, "nbline", 0)
+      s3 == R_Lines(L, md, Put(LoopGuard(L, md, Alloc(L, md, s2, nb), nb), "lines", <<>>), 1, nb)
+      db == R_DbPart(L, md, s3)
+  IN Res(db, [ndim |-> db.o.ndim, lines |-> db.o.lines] @@ DbOf(db))
+
+W_DbGraphO(o) == <<RecI(TRUE, o.ndim), RecI(TRUE, Len(o.arcs))>> \o [a \in DOMAIN o.arcs |-> Vec(FALSE, o.arcs[a])] \o W_DbPart(o)
+RECURSIVE R_Arcs(_, _, _, _, _)
+R_Arcs(L, md, s, k, n) ==
+  IF k > n \/ ~s.ok THEN s
+  ELSE LET r == RdVec(L, md, s, "vec", "d", 3) IN
+       IF r.ok THEN \* nft.add((int) tab[0], (int) tab[1], tab[2]): any double is cast to a row / column index
+                    LET badidx == \E q \in 1..2 : ~(r.o.vec[q] \in DOMAIN StrIntTab /\ StrIntTab[r.o.vec[q]] >= 0 /\ StrIntTab[r.o.vec[q]] <= 1000)
+                        r2 == IF badidx THEN (IF md = "real" THEN Ev(r, "badIndex") ELSE Fail(r, "badIndex")) ELSE r
+                    IN IF r2.ok THEN R_Arcs(L, md, Put(r2, "arcs", Append(s.o.arcs, r.o.vec)), k + 1, n) ELSE r2
+       ELSE IF md = "real" THEN Ev(r, "useAfterClear") ELSE r          \* nft.add((int) tab[0], ...) on the cleared buffer
+R_DbGraphO(L, md, s0) ==
+  LET s1 == RdI(L, md, s0, "ndim")
+      s2 == RdI(L, md, s1, "narcs")
+      na == Gd(s2, "narcs", 0)
+      s3 == R_Arcs(L, md, Put(LoopGuard(L, md, s2, na), "arcs", <<>>), 1, na)
+      db == R_DbPart(L, md, s3)
+      \* the arcs must join nodes that exist: the real reader does not compare them with the number of samples
+      big == db.ok /\ \E a \in DOMAIN db.o.arcs : \E q \in 1..2 :
+                 db.o.arcs[a][q] \in DOMAIN StrIntTab /\ StrIntTab[db.o.arcs[a][q]] >= db.o.nech
+      d2 == IF big THEN (IF md = "real" THEN Ev(db, "badIndex") ELSE Fail(db, "badIndex")) ELSE db
+  IN Res(d2, [ndim |-> d2.o.ndim, arcs |-> d2.o.arcs] @@ DbOf(d2))
+
+LineSplits(n) == CASE n = 1 -> << <<1>> >> [] n = 2 -> << <<2>>, <<1, 1>> >> [] OTHER -> << <<3>>, <<1, 2>>, <<2, 1>> >>
+DbLineStructs == << [ncol |-> 1, nech |-> 1], [ncol |-> 1, nech |-> 2], [ncol |-> 2, nech |-> 2], [ncol |-> 2, nech |-> 3], [ncol |-> 3, nech |-> 2] >>
+DbLineLocs(n) == CASE n = 1 -> << <<"x1">>, <<"z1">> >> [] n = 2 -> << <<"x1", "z1">>, <<"x1", "x2">> >> [] OTHER -> << <<"x1", "x2", "z1">> >>
+DbLineDoms(st) == <<LineSplits(st.nech), DbLineLocs(st.ncol), NamePatterns(st.ncol, "plain")>> \o Cst(st.ncol * st.nech, FVs)
+RECURSIVE AddsOf(_, _)
+AddsOf(counts, start) == IF counts = <<>> THEN <<>> ELSE << [k \in 1..Head(counts) |-> start + k - 1] >> \o AddsOf(Tail(counts), start + Head(counts))
+DbLineBuild(st, v) == [ndim |-> NDimOf(v[2]), lines |-> AddsOf(v[1], 0), ncol |-> st.ncol, nech |-> st.nech, locators |-> v[2], names |-> v[3],
+                       rows |-> [e \in 1..st.nech |-> [c \in 1..st.ncol |-> v[3 + (e - 1) * st.ncol + c]]]]
+\* (createFromSamples closes the list with the arc (n-1, n-1, 0) that fixes the size of the matrix; arcs in the order
+\*  of the sparse matrix: by column, then by row)
+ArcPatterns(n) == CASE n = 2 -> << << <<"0", "1", "1">>, <<"1", "1", "0">> >>, << <<"0", "1", "2.5">>, <<"1", "1", "0">> >> >>
+                    [] OTHER -> << << <<"0", "1", "1">>, <<"1", "2", "1">>, <<"2", "2", "0">> >>,
+                                   << <<"0", "1", "2.5">>, <<"0", "2", "1.23456789012345">>, <<"2", "2", "0">> >>,
+                                   << <<"0", "2", "1">>, <<"2", "2", "0">> >> >>
+DbGraphOStructs == << [ncol |-> 1, nech |-> 2], [ncol |-> 2, nech |-> 2], [ncol |-> 2, nech |-> 3], [ncol |-> 3, nech |-> 3] >>
+DbGraphODoms(st) == <<ArcPatterns(st.nech), DbLineLocs(st.ncol), NamePatterns(st.ncol, "plain")>> \o Cst(st.ncol * st.nech, FVs)
+DbGraphOBuild(st, v) == [ndim |-> NDimOf(v[2]), arcs |-> v[1], ncol |-> st.ncol, nech |-> st.nech, locators |-> v[2], names |-> v[3],
+                         rows |-> [e \in 1..st.nech |-> [c \in 1..st.ncol |-> v[3 + (e - 1) * st.ncol + c]]]]
+
+-----------------------------------------------------------------------------
+(* Anamorphoses (src/Anamorphosis)                                           *)
+
+\* _tableRead: "if (!ret) return 1;" -- the failure of the underlying _recordReadVec is turned into a success, the table
+\* keeps its initial zeros (the line has been consumed)
+TableRead(L, md, s, f, n) ==
+  IF ~s.ok THEN s
+  ELSE IF n < 0 THEN FailAt(s, IF md = "real" THEN "allocNegative" ELSE "badCount", f)
+  ELSE LET r == RdVec(L, md, s, f, "d", n) IN
+       IF r.ok \/ md = "ideal" THEN r
+       ELSE IF "allocHuge" \in r.ev THEN r
+       ELSE Put(Ev([r EXCEPT !.ok = TRUE, !.at = ""], "tableReadIgnored"), f, Cst(IF n <= 1000 THEN n ELSE 0, "0"))
+
+W_AnamCont(c) == <<Rec(FALSE, c[1]), Rec(TRUE, c[2]), Rec(FALSE, c[3]), Rec(TRUE, c[4]), Rec(FALSE, c[5]), Rec(TRUE, c[6]),
+                   Rec(FALSE, c[7]), Rec(TRUE, c[8]), Rec(TRUE, c[9]), Rec(TRUE, c[10])>>
+R_AnamCont(L, md, s) == RdMany(L, md, Put(s, "cont", <<>>), "cont", "d", 10)
+
+\* products by r = 0.5 and 0.25 of the values of the domain
+HalfTab == ("0" :> <<"0", "0">>) @@ ("1" :> <<"0.5", "0.25">>) @@ ("-1" :> <<"-0.5", "-0.25">>) @@ (NA :> <<NA, NA>>)
+        @@ ("1.23456789012345" :> <<"0.617283945061725", "0.308641972530863">>) @@ ("1e+300" :> <<"5e+299", "2.5e+299">>)
+        @@ ("1e-300" :> <<"5e-301", "2.5e-301">>)
+ScalePsi(psi, r) == IF r # "0.5" THEN psi
+                    ELSE [n \in DOMAIN psi |-> IF n = 1 THEN psi[n] ELSE IF n <= 3 /\ psi[n] \in DOMAIN HalfTab THEN HalfTab[psi[n]][n - 1] ELSE "scaled?"]
+
+W_AnamHermite(o) == W_AnamCont(o.cont) \o <<Rec(TRUE, o.rcoef), RecI(TRUE, Len(o.psi)), Vec(TRUE, o.psi)>>
+R_AnamHermite(L, md, s0) ==
+  LET s1 == R_AnamCont(L, md, s0)
+      s2 == RdD(L, md, s1, "rcoef")
+      s3 == RdI(L, md, s2, "nbpoly")
+      n  == Gd(s3, "nbpoly", 0)
+      \* a polynomial expansion without any coefficient: setPsiHns / calculateMeanAndVariance index psi[0]
+      sh == IF s3.ok /\ n <= 0 THEN (IF md = "real" THEN Ev(s3, "emptyHermite") ELSE Fail(s3, "badCount")) ELSE s3
+      s4 == TableRead(L, md, Alloc(L, md, sh, n), "psi", n)
+  IN \* setPsiHns(hermite) stores the values read as RAW coefficients, setRCoef(r) then makes getPsiHns return them times
+     \* r^n: but the writer had written getPsiHns(), i.e. coefficients already multiplied by r^n
+     Res(s4, [cont |-> s4.o.cont, rcoef |-> s4.o.rcoef, psi |-> IF md = "real" THEN ScalePsi(s4.o.psi, s4.o.rcoef) ELSE s4.o.psi])
+
+W_AnamEmpirical(o) == W_AnamCont(o.cont) \o <<RecI(TRUE, Len(o.z)), Rec(TRUE, o.sigma2e), Vec(TRUE, o.z), Vec(TRUE, o.y)>>
+R_AnamEmpirical(L, md, s0) ==
+  LET s1 == R_AnamCont(L, md, s0)
+      s2 == RdI(L, md, s1, "ndisc")
+      s3 == RdD(L, md, s2, "sigma2e")
+      n  == Gd(s3, "ndisc", 0)
+      s4 == TableRead(L, md, Alloc(L, md, s3, n), "z", n)
+      s5 == TableRead(L, md, s4, "y", n)
+  IN Res(s5, [cont |-> s5.o.cont, sigma2e |-> s5.o.sigma2e, z |-> s5.o.z, y |-> s5.o.y])
+
+W_AnamDiscreteIR(o) == <<RecI(TRUE, o.ncut), RecI(TRUE, o.ncut + 1), RecI(TRUE, o.nelem), Vec(TRUE, o.zcut), Vec(TRUE, o.stats), Rec(TRUE, o.rcoef)>>
+R_AnamDiscreteIR(L, md, s0) ==
+  LET s1 == RdI(L, md, s0, "ncut")
+      s2 == RdI(L, md, s1, "nclass")
+      s3 == RdI(L, md, s2, "nelem")
+      nc == Gd(s3, "ncut", 0)
+      ns == BigCount(Gd(s3, "nclass", 0), Gd(s3, "nelem", 0))
+      sa == IF s3.ok /\ md = "ideal" /\ (nc < 1 \/ s3.o.nelem < 1 \/ s3.o.nclass - 1 # nc) THEN Fail(s3, "badCount") ELSE s3
+      s4 == TableRead(L, md, Alloc(L, md, sa, nc), "zcut", nc)
+      s5 == TableRead(L, md, Alloc(L, md, s4, ns), "stats", IF ns = IMAX THEN 100001 ELSE ns)
+      s6 == RdD(L, md, s5, "rcoef")
+  IN \* setStats refuses (silently) a table whose size is not (ncut + 1) * nelem: the statistics stay 0
+     Res(s6, [ncut |-> nc, nelem |-> s6.o.nelem, zcut |-> s6.o.zcut,
+              stats |-> IF s6.o.nclass - 1 = nc \/ nc < 0 \/ nc > 1000 THEN s6.o.stats ELSE Cst((nc + 1) * (IF s6.o.nelem > 0 /\ s6.o.nelem < 1000 THEN s6.o.nelem ELSE 0), "0"),
+              rcoef |-> s6.o.rcoef])
+
+ContPatterns == << <<"0", "1", "-1", "1", "0", "1", "-1", "1", "0", "1">>,
+                   <<NA, NA, NA, NA, NA, NA, NA, NA, NA, NA>>,
+                   <<"-1", "1e+20", "-1e+300", "1e+300", "1e-300", "1.23456789012345", "-1.23456789012345", "2", "1.23456789012345", "1e-300">> >>
+AnamHermiteStructs == <<[n |-> 1], [n |-> 2], [n |-> 3]>>
+AnamHermiteDoms(st) == <<ContPatterns, <<"1", "0.5">> >> \o Cst(st.n, FVs)
+\* psi: the effective coefficients psi_n r^n (what getPsiHns returns and what is written); mean and variance (positions
+\* 9, 10 of the common part) are functions of the coefficients: left open ("*")
+AnamHermiteBuild(st, v) == [cont |-> SubSeq(v[1], 1, 8) \o <<"*", "*">>, rcoef |-> v[2], psi |-> SubSeq(v, 3, 2 + st.n)]
+AnamEmpiricalStructs == <<[n |-> 1], [n |-> 2], [n |-> 3]>>
+AnamEmpiricalDoms(st) == <<ContPatterns, <<NA, "0", "0.5", "1.23456789012345">> >> \o Cst(2 * st.n, FVs)
+AnamEmpiricalBuild(st, v) == [cont |-> v[1], sigma2e |-> v[2], z |-> SubSeq(v, 3, 2 + st.n), y |-> SubSeq(v, 3 + st.n, 2 + 2 * st.n)]
+AnamDiscreteIRStructs == <<[ncut |-> 1, nelem |-> 1], [ncut |-> 1, nelem |-> 2], [ncut |-> 2, nelem |-> 2]>>
+AnamDiscreteIRDoms(st) == << <<"0", "0.5", "1.23456789012345">> >> \o Cst(st.ncut + (st.ncut + 1) * st.nelem, FVs)
+AnamDiscreteIRBuild(st, v) == [ncut |-> st.ncut, nelem |-> st.nelem, zcut |-> SubSeq(v, 2, 1 + st.ncut),
+                               stats |-> SubSeq(v, 2 + st.ncut, 1 + st.ncut + (st.ncut + 1) * st.nelem), rcoef |-> v[1]]
+
+-----------------------------------------------------------------------------
+(* Meshes (src/Mesh)                                                         *)
+
+W_MeshEStandard(o) == <<RecI(TRUE, o.ndim), RecI(TRUE, o.napices), RecI(TRUE, o.npm), RecI(TRUE, o.nmeshes), Vec(TRUE, o.apices), VecI(TRUE, o.meshes)>>
+R_MeshEStandard(L, md, s0) ==
+  LET s1 == RdI(L, md, s0, "ndim")
+      s2 == RdI(L, md, s1, "napices")
+      s3 == RdI(L, md, s2, "npm")
+      s4 == RdI(L, md, s3, "nmeshes")
+  IN IF ~s4.ok THEN ResFail(s4) ELSE
+  LET sa == IF md = "ideal" /\ (s4.o.ndim < 1 \/ s4.o.napices < 0 \/ s4.o.npm < 0 \/ s4.o.nmeshes < 0) THEN Fail(s4, "badCount") ELSE s4
+      na == BigCount(s4.o.napices, s4.o.ndim)
+      nm == BigCount(s4.o.nmeshes, s4.o.npm)
+      s5 == RdVec(L, md, sa, "apices", "d", IF na = IMAX THEN 100001 ELSE na)
+      s6 == RdVec(L, md, s5, "meshes", "i", IF nm = IMAX THEN 100001 ELSE nm)
+  IN IF md = "ideal" THEN Res(s6, [ndim |-> s6.o.ndim, napices |-> s6.o.napices, npm |-> s6.o.npm, nmeshes |-> s6.o.nmeshes, apices |-> s6.o.apices, meshes |-> s6.o.meshes])
+     \* the dimension read stays in a local variable (AMesh::_nDim is not set): the object reloaded is in dimension 0, with
+     \* one apex per mesh and no coordinate
+     ELSE Res(s6, [ndim |-> 0, napices |-> s6.o.napices, npm |-> 1, nmeshes |-> Len(s6.o.meshes), apices |-> <<>>, meshes |-> <<-1>>])
+
+\* structures: simplices of dimension ndim on a few apices (meshes given by the ranks of their apices)
+MeshShapes == << [ndim |-> 1, napices |-> 2, meshes |-> <<0, 1>>], [ndim |-> 1, napices |-> 3, meshes |-> <<0, 1, 1, 2>>],
+                 [ndim |-> 2, napices |-> 3, meshes |-> <<0, 1, 2>>], [ndim |-> 2, napices |-> 4, meshes |-> <<0, 1, 2, 1, 2, 3>>],
+                 [ndim |-> 3, napices |-> 4, meshes |-> <<0, 1, 2, 3>>] >>
+MeshEStandardDoms(st) == Cst(st.napices * st.ndim, <<"0", "1", "-1", "1.23456789012345", "2.5">>)
+MeshEStandardBuild(st, v) == [ndim |-> st.ndim, napices |-> st.napices, npm |-> st.ndim + 1, nmeshes |-> Len(st.meshes) \div (st.ndim + 1),
+                              apices |-> v, meshes |-> st.meshes]
+
+W_MeshETurbo(o) ==
+  <<RecI(TRUE, o.ndim), VecI(TRUE, o.nx), Vec(TRUE, o.dx), Vec(TRUE, o.x0), Vec(TRUE, o.rotmat), RecI(TRUE, o.polar), RecI(TRUE, o.mode),
+    RecI(TRUE, o.nmesh), RecI(TRUE, 0), RecI(TRUE, o.ngrid), RecI(TRUE, 0)>>
+R_MeshETurbo(L, md, s0) ==
+  LET s1 == RdI(L, md, s0, "ndim")
+      nd == Gd(s1, "ndim", 0)
+      s2 == RdVec(L, md, s1, "nx", "i", nd)
+      s3 == RdVec(L, md, s2, "dx", "d", nd)
+      s4 == RdVec(L, md, s3, "x0", "d", nd)
+      s5 == RdVec(L, md, s4, "rotmat", "d", IF BigCount(nd, nd) = IMAX THEN 100001 ELSE BigCount(nd, nd))
+      s6 == RdI(L, md, s5, "polar")
+      s7 == RdI(L, md, s6, "mode")
+      s8 == RdI(L, md, s7, "nmesh")
+      s9 == RdI(L, md, s8, "nmeshmask")
+      sA == IF s9.ok /\ s9.o.nmeshmask > 0 THEN RdVec(L, md, s9, "meshmask", "i", s9.o.nmesh) ELSE s9
+      sB == RdI(L, md, sA, "ngrid")
+      sC == RdI(L, md, sB, "ngridmask")
+      sD == IF sC.ok /\ sC.o.ngridmask > 0 THEN RdVec(L, md, sC, "gridmask", "i", sC.o.ngrid) ELSE sC
+      \* "(void) initFromGridByMatrix(...)": a grid that cannot be built (no node along an axis, absurd counts) is not noticed
+      badg == s5.ok /\ (nd < 1 \/ nd > 3 \/ \E d \in DOMAIN s5.o.nx : s5.o.nx[d] < 2 \/ s5.o.nx[d] > 10000)
+      sE == IF sD.ok /\ badg THEN (IF md = "real" THEN Ev(sD, "badGrid") ELSE Fail(sD, "badCount")) ELSE sD
+  IN Res(sE, [ndim |-> nd, nx |-> sE.o.nx, dx |-> sE.o.dx, x0 |-> sE.o.x0, rotmat |-> sE.o.rotmat, polar |-> sE.o.polar, mode |-> sE.o.mode,
+              nmesh |-> sE.o.nmesh, ngrid |-> sE.o.ngrid])
+TurboNx == << <<2>>, <<3>>, <<2, 2>>, <<3, 2>>, <<2, 2, 2>> >>
+\* number of simplices of the turbo meshing: (nx - 1) segments, 2 triangles per cell, 6 tetrahedra per cell
+TurboNMesh(nx) == CASE Len(nx) = 1 -> nx[1] - 1 [] Len(nx) = 2 -> 2 * (nx[1] - 1) * (nx[2] - 1) [] OTHER -> 6 * (nx[1] - 1) * (nx[2] - 1) * (nx[3] - 1)
+MeshETurboStructs == Flat([k \in DOMAIN TurboNx |-> <<[nx |-> TurboNx[k], rot |-> 0]>> \o (IF Len(TurboNx[k]) = 2 THEN <<[nx |-> TurboNx[k], rot |-> 1]>> ELSE <<>>)])
+MeshETurboDoms(st) == LET nd == Len(st.nx) IN Cst(nd, <<"1", "0.5", "1.23456789012345">>) \o Cst(nd, <<"0", "-1", "1.23456789012345">>) \o << IF st.nx = <<3, 2>> THEN <<0, 1>> ELSE <<0>> >>     \* (the polarisation shows on the connectivity of larger grids only)
+MeshETurboBuild(st, v) == LET nd == Len(st.nx) IN
+  [ndim |-> nd, nx |-> st.nx, dx |-> SubSeq(v, 1, nd), x0 |-> SubSeq(v, nd + 1, 2 * nd),
+   rotmat |-> IF st.rot = 1 THEN <<"0", "1", "-1", "0">> ELSE RotToks(nd, "0"), polar |-> v[2 * nd + 1], mode |-> 1,
+   nmesh |-> TurboNMesh(st.nx), ngrid |-> ProdSeq(st.nx)]
+
+-----------------------------------------------------------------------------
+(* Faults, Rule, RuleShift, FracEnviron                                      *)
+
+W_Faults(o) == <<RecI(TRUE, Len(o.faults))>> \o Flat([f \in DOMAIN o.faults |-> W_PolyLine(o.faults[f])])
+RECURSIVE R_FaultList(_, _, _, _, _)
+R_FaultList(L, md, s, k, n) ==
+  IF k > n \/ ~s.ok THEN s
+  ELSE LET r == R_PolyLine(L, md, s) IN
+       IF ~r.ok THEN r ELSE R_FaultList(L, md, Put(r, "faults", Append(s.o.faults, r.o.xy)), k + 1, n)
+R_Faults(L, md, s0) ==
+  LET s1 == RdI(L, md, s0, "nfaults")
+      n  == Gd(s1, "nfaults", 0)
+      s2 == R_FaultList(L, md, Put(LoopGuard(L, md, s1, n), "faults", <<>>), 1, n)
+  IN Res(s2, [faults |-> s2.o.faults])
+FaultsStructs == << [nps |-> <<>>], [nps |-> <<2>>], [nps |-> <<1>>], [nps |-> <<2, 3>>] >>
+FaultsDoms(st) == Cst(2 * SumSeq(st.nps), CV)
+RECURSIVE FaultsBuildRec(_, _, _, _, _)
+FaultsBuildRec(st, v, k, pos, acc) ==
+  IF k > Len(st.nps) THEN acc
+  ELSE FaultsBuildRec(st, v, k + 1, pos + 2 * st.nps[k], Append(acc, [p \in 1..st.nps[k] |-> <<v[pos + 2 * p - 2], v[pos + 2 * p - 1]>>]))
+FaultsBuild(st, v) == [faults |-> FaultsBuildRec(st, v, 1, 1, <<>>)]
+
+\* Rule::_ruleDefine: the tree in prefix order; a row = from_type, from_rank, from_vers, node_type, node_rank, facies
+\* names: "S" threshold along Y1, "T" threshold along Y2, <<"F", k>> facies k
+FacNum == ("F1" :> 1) @@ ("F2" :> 2) @@ ("F3" :> 3) @@ ("F4" :> 4)
+RECURSIVE RuleRows(_, _, _, _, _, _)
+RuleRows(names, pos, ftype, frank, fvers, rank) ==
+  LET nm == names[pos] IN
+  IF nm \notin {"S", "T"}
+  THEN [rows |-> << <<ftype, frank, fvers, 0, rank, FacNum[nm]>> >>, pos |-> pos + 1, rank |-> rank]
+  ELSE LET orient == IF nm = "S" THEN 1 ELSE 2
+           cur == rank + 1
+           r1  == RuleRows(names, pos + 1, orient, cur, 1, cur)
+           r2  == RuleRows(names, r1.pos, orient, cur, 2, r1.rank)
+       IN [rows |-> << <<ftype, frank, fvers, orient, cur, 0>> >> \o r1.rows \o r2.rows, pos |-> r2.pos, rank |-> r2.rank]
+\* the rows are the encoding of a tree: names recovered from (node_type, facies), well-formed prefix sequence, same rows
+NodeName(r) == IF r[4] = 1 THEN "S" ELSE IF r[4] = 2 THEN "T" ELSE IF r[4] = 0 /\ r[6] \in 1..4 THEN <<"F1", "F2", "F3", "F4">>[r[6]] ELSE "bad"
+RECURSIVE PrefixNeed(_, _, _)
+PrefixNeed(names, k, need) == IF k > Len(names) THEN need
+                              ELSE IF need = 0 THEN -1
+                              ELSE PrefixNeed(names, k + 1, IF names[k] \in {"S", "T"} THEN need + 1 ELSE need - 1)
+ValidRuleNodes(nodes) ==
+  LET names == [k \in DOMAIN nodes |-> NodeName(nodes[k])] IN
+  /\ Len(nodes) >= 1 /\ Len(nodes) <= 15
+  /\ \A k \in DOMAIN names : names[k] # "bad"
+  /\ PrefixNeed(names, 1, 1) = 0
+  /\ RuleRows(names, 1, 0, 0, 0, 0).rows = nodes
+W_RulePart(o) == <<RecI(TRUE, o.mode), Rec(TRUE, o.rho), RecI(TRUE, Len(o.nodes))>>
+                 \o Flat([k \in DOMAIN o.nodes |-> Recs([j \in 1..6 |-> IntTok(o.nodes[k][j])]) \o <<Com(TRUE)>>])
+R_RulePart(L, md, s0) ==
+  LET s1 == RdI(L, md, s0, "mode")
+      s2 == RdD(L, md, s1, "rho")
+      s3 == RdI(L, md, s2, "nbnode")
+      n  == Gd(s3, "nbnode", 0)
+      sa == IF s3.ok /\ md = "ideal" /\ (n < 1 \/ s3.o.mode \notin {0, 1, 2}) THEN Fail(s3, "badCount") ELSE s3
+      sb == IF sa.ok /\ md = "real" /\ sa.o.mode \notin {0, 1, 2} THEN Ev(sa, "badEnum") ELSE sa
+      s4 == RdMany(L, md, Put(Alloc(L, md, sb, BigCount(6, n)), "flat", <<>>), "flat", "i", IF BigCount(6, n) = IMAX THEN 100001 ELSE 6 * n)
+  IN IF ~s4.ok THEN s4 ELSE
+     LET nodes == [k \in 1..n |-> SubSeq(s4.o.flat, 6 * k - 5, 6 * k)]
+         s5 == Put(s4, "nodes", nodes)
+     IN \* setMainNodeFromNodNames(nodes) rebuilds the tree from the codes without checking that they describe one
+        IF ValidRuleNodes(nodes) THEN s5 ELSE IF md = "real" THEN Ev(s5, "badRuleNodes") ELSE Fail(s5, "badRuleNodes")
+W_Rule(o) == W_RulePart(o)
+R_Rule(L, md, s0) == LET r == R_RulePart(L, md, s0) IN Res(r, [mode |-> r.o.mode, rho |-> r.o.rho, nodes |-> r.o.nodes])
+\* RuleShift: the three parameters of the shadow rule are written as 0 when undefined, then the shift
+W_RuleShift(o) == W_RulePart(o) \o <<Rec(TRUE, "0"), Rec(TRUE, "0"), Rec(TRUE, "0"), Rec(TRUE, o.shift[1]), Rec(TRUE, o.shift[2]), Rec(TRUE, o.shift[3])>>
+R_RuleShift(L, md, s0) ==
+  LET r == R_RulePart(L, md, s0)
+      s == RdMany(L, md, Put(RdMany(L, md, Put(r, "shadow", <<>>), "shadow", "d", 3), "shift", <<>>), "shift", "d", 3)
+  IN Res(s, [mode |-> s.o.mode, rho |-> s.o.rho, nodes |-> s.o.nodes, shift |-> s.o.shift])
+RuleTrees == << <<"S", "F1", "F2">>, <<"T", "F1", "F2">>, <<"S", "F1", "T", "F2", "F3">>, <<"S", "T", "F1", "F2", "S", "F3", "F4">>, <<"S", "S", "F1", "F2", "F3">> >>
+RuleStructs == [k \in DOMAIN RuleTrees |-> [tree |-> RuleTrees[k]]]
+RuleBuild(st, v) == [mode |-> 0, rho |-> v[1], nodes |-> RuleRows(st.tree, 1, 0, 0, 0, 0).rows]
+RuleShiftStructs == << [tree |-> RuleTrees[1]], [tree |-> RuleTrees[3]] >>
+RuleShiftBuild(st, v) == [mode |-> 1, rho |-> "0", nodes |-> RuleRows(st.tree, 1, 0, 0, 0, 0).rows, shift |-> v[1]]
+
+\* FracEnviron: the class name written on the first line has two words: _fileOpenRead can never accept the file
+W_FracEnviron(o) ==
+  <<RecI(TRUE, Len(o.fams)), RecI(TRUE, Len(o.faults))>> \o [k \in 1..6 |-> Rec(TRUE, o.par[k])]
+  \o Flat([f \in DOMAIN o.fams |-> <<Com(TRUE)>> \o [k \in 1..10 |-> Rec(TRUE, o.fams[f][k])]])
+  \o Flat([f \in DOMAIN o.faults |-> LET ft == o.faults[f] IN
+        <<Com(TRUE), Rec(TRUE, ft.coord), Rec(TRUE, ft.orient), RecI(TRUE, Len(ft.thetal)), Vec(TRUE, ft.thetal), Vec(TRUE, ft.thetar),
+          Vec(TRUE, ft.rangel), Vec(TRUE, ft.ranger)>>])
+RECURSIVE R_Fams(_, _, _, _, _)
+R_Fams(L, md, s, k, n) ==
+  IF k > n \/ ~s.ok THEN s
+  ELSE LET r == RdMany(L, md, Put(s, "tmpv", <<>>), "tmpv", "d", 10) IN
+       IF ~r.ok THEN r ELSE R_Fams(L, md, Put(r, "fams", Append(s.o.fams, r.o.tmpv)), k + 1, n)
+RECURSIVE R_FracFaults(_, _, _, _, _)
+R_FracFaults(L, md, s, k, n) ==
+  IF k > n \/ ~s.ok THEN s
+  ELSE LET a == RdD(L, md, s, "coord")
+           b == RdD(L, md, a, "orient")
+           c == RdI(L, md, b, "nfam")
+           nf == Gd(c, "nfam", 0)
+           d == RdVec(L, md, RdVec(L, md, RdVec(L, md, RdVec(L, md, c, "thetal", "d", nf), "thetar", "d", nf), "rangel", "d", nf), "ranger", "d", nf)
+       IN IF ~d.ok THEN d
+          ELSE R_FracFaults(L, md, Put(d, "faults", Append(s.o.faults, [coord |-> d.o.coord, orient |-> d.o.orient, thetal |-> d.o.thetal,
+                                         thetar |-> d.o.thetar, rangel |-> d.o.rangel, ranger |-> d.o.ranger])), k + 1, n)
+R_FracEnviron(L, md, s0) ==
+  LET s1 == RdI(L, md, s0, "nfam")
+      s2 == RdI(L, md, s1, "nfaults")
+      s3 == RdMany(L, md, Put(s2, "par", <<>>), "par", "d", 6)
+      nf == Gd(s3, "nfam", 0)
+      nt == Gd(s3, "nfaults", 0)
+      s4 == R_Fams(L, md, Put(LoopGuard(L, md, s3, nf), "fams", <<>>), 1, nf)
+      s5 == R_FracFaults(L, md, Put(LoopGuard(L, md, s4, nt), "faults", <<>>), 1, nt)
+  IN Res(s5, [par |-> s5.o.par, fams |-> s5.o.fams, faults |-> s5.o.faults])
+FracEnvironStructs == << [nfam |-> 0, nfault |-> 0], [nfam |-> 1, nfault |-> 0], [nfam |-> 1, nfault |-> 1], [nfam |-> 2, nfault |-> 1] >>
+FracV == <<"0", "1", "0.5", "1.23456789012345", "10">>
+FracEnvironDoms(st) == Cst(6, FracV) \o Cst(10 * st.nfam, FracV) \o Cst(st.nfault * (2 + 4 * st.nfam), FracV)
+FracEnvironBuild(st, v) ==
+  [par |-> SubSeq(v, 1, 6),
+   fams |-> [f \in 1..st.nfam |-> SubSeq(v, 7 + 10 * (f - 1), 6 + 10 * f)],
+   faults |-> [t \in 1..st.nfault |-> LET b == 6 + 10 * st.nfam + (t - 1) * (2 + 4 * st.nfam) IN
+                 [coord |-> v[b + 1], orient |-> v[b + 2], thetal |-> SubSeq(v, b + 3, b + 2 + st.nfam),
+                  thetar |-> SubSeq(v, b + 3 + st.nfam, b + 2 + 2 * st.nfam), rangel |-> SubSeq(v, b + 3 + 2 * st.nfam, b + 2 + 3 * st.nfam),
+                  ranger |-> SubSeq(v, b + 3 + 3 * st.nfam, b + 2 + 4 * st.nfam)]]]
+
+-----------------------------------------------------------------------------
+(* CSV files read by Db::createFromCSV (csv_table_read, src/Core/convert.cpp; Db::resetFromCSV): a header line of   *)
+(* names, then one line of cells per sample; cells separated by the separator character, NA string, no comment       *)
+(* syntax.  The same lines-of-tokens representation is used (the file is rendered with the separator instead of       *)
+(* blanks).  o = [names, rows]                                                                                        *)
+
+W_CSVLines(o) == <<o.names>> \o o.rows
+CsvVal(t) == IF IsNum(t) /\ t # "*" THEN t ELSE NA            \* toDouble: what is not a number is undefined
+RECURSIVE Recut(_, _)
+Recut(tab, n) == IF n <= 0 \/ Len(tab) < n THEN <<>> ELSE <<SubSeq(tab, 1, n)>> \o Recut(SubSeq(tab, n + 1, Len(tab)), n)
+R_CSV(L, md) ==
+  LET names == IF L = <<>> THEN <<>> ELSE L[1]
+      ncol  == Len(names)
+      lines == SelectSeq(IF L = <<>> THEN <<>> ELSE Tail(L), LAMBDA l : l # <<>>)
+      nrow  == Len(lines)
+      \* every line gives at most ncol cells (all its cells when there is no header)
+      cells(l) == IF ncol > 0 /\ Len(l) > ncol THEN SubSeq(l, 1, ncol) ELSE l
+      ragged == \E k \in DOMAIN lines : Len(lines[k]) # ncol
+      tab   == Flat([k \in DOMAIN lines |-> [j \in DOMAIN cells(lines[k]) |-> CsvVal(cells(lines[k])[j])]])
+      \* Db::resetFromCSV: ncol = tab.size() / nrow, whatever the header says
+      ncol2 == IF tab = <<>> \/ nrow = 0 THEN 0 ELSE Len(tab) \div nrow
+  IN IF md = "ideal"
+     THEN IF ncol >= 1 /\ ~ragged THEN [ok |-> TRUE, ev |-> {}, at |-> "", o |-> [names |-> names, rows |-> Recut(tab, ncol)]]
+          ELSE [ok |-> FALSE, ev |-> {"raggedLine"}, at |-> "rows", o |-> <<>>]
+     ELSE [ok |-> TRUE, at |-> "",
+           \* a number of columns that differs from the number of names makes Db::_loadData throw; a name starting with '#'
+           \* gives a Db that cannot be read back from its own neutral file
+           ev |-> (IF ragged THEN {"raggedShift"} ELSE {}) \cup (IF ncol2 # ncol THEN {"namesMismatch"} ELSE {})
+                  \cup (IF \E k \in DOMAIN names : IsComment(names[k]) THEN {"nameHash"} ELSE {}),
+           o |-> [names |-> IF ncol2 <= ncol THEN SubSeq(names, 1, ncol2) ELSE names, rows |-> SubSeq(Recut(tab, ncol2), 1, nrow)]]
+CSVStructs == << [ncol |-> 1, nech |-> 1], [ncol |-> 2, nech |-> 1], [ncol |-> 2, nech |-> 2], [ncol |-> 3, nech |-> 2], [ncol |-> 1, nech |-> 3] >>
+CSVNames(n) == CASE n = 1 -> << <<"a">>, <<"x1">> >> [] n = 2 -> << <<"a", "b">>, <<"x1", "z1">> >> [] OTHER -> << <<"x1", "x2", "v">>, <<"a", "b", "c">> >>
+CSVDoms(st) == <<CSVNames(st.ncol)>> \o Cst(st.ncol * st.nech, <<"0", "1", "-1", NA, "1.23456789012345", "2.5">>)
+CSVBuild(st, v) == [names |-> v[1], rows |-> [e \in 1..st.nech |-> [c \in 1..st.ncol |-> v[1 + (e - 1) * st.ncol + c]]]]
+
+\* Grid exchange formats that can be written and read (GridZycor, GridIfpEn): no grammar is modelled; the instances are
+\* 2-D unrotated grids with one variable, the expectation is that geometry and values come back (6 significant digits)
+\* (an axis with a single node has no mesh size in these extent-based formats)
+GridFmtStructs == << [nx |-> <<2, 2>>], [nx |-> <<3, 2>>], [nx |-> <<2, 3>>] >>
+GridFmtDoms(st) == Cst(2, <<"0", "-1", "1.23456789012345", "100">>) \o Cst(2, <<"1", "0.5", "1.23456789012345">>)
+                   \o Cst(ProdSeq(st.nx), <<"0", "1", "-1", NA, "1.23456789012345", "2.5", "100">>)
+GridFmtBuild(st, v) == LET ne == ProdSeq(st.nx) IN
+  [ndim |-> 2, nx |-> st.nx, x0 |-> SubSeq(v, 1, 2), dx |-> SubSeq(v, 3, 4), angles |-> <<"0", "0">>, ncol |-> 1, nech |-> ne,
+   locators |-> <<"z1">>, names |-> << <<"v">> >>, rows |-> [e \in 1..ne |-> <<v[4 + e]>>]]
+ExchangeFormats == {"GridZycor", "GridIfpEn"}
+
+-----------------------------------------------------------------------------
 (* Dispatch over the classes, abstract instances                             *)
 
 NeighImageStructs == NeighStructs
@@ -778,6 +1146,13 @@ WriteOps(c, o) ==
     [] c = "NeighMoving" -> W_NeighMoving(o) [] c = "NeighCell" -> W_NeighCell(o)
     [] c = "NeighImage" -> W_NeighImage(o)   [] c = "Vario" -> W_Vario(o)
     [] c = "Polygons" -> W_Polygons(o)       [] c = "PolyLine2D" -> W_PolyLine2D(o)
+    [] c = "DbLine" -> W_DbLine(o)           [] c = "DbGraphO" -> W_DbGraphO(o)
+    [] c = "AnamHermite" -> W_AnamHermite(o) [] c = "AnamEmpirical" -> W_AnamEmpirical(o)
+    [] c = "AnamDiscreteIR" -> W_AnamDiscreteIR(o) [] c = "MeshEStandard" -> W_MeshEStandard(o)
+    [] c = "MeshETurbo" -> W_MeshETurbo(o)   [] c = "Faults" -> W_Faults(o)
+    [] c = "Rule" -> W_Rule(o)               [] c = "RuleShift" -> W_RuleShift(o)
+    [] c = "FracEnviron" -> W_FracEnviron(o)
+    [] c \in ExchangeFormats \cup {"CSV", "Raw"} -> <<>>
 
 ReadBody(c, L, md) == LET S0 == S0n(NTokOf(L)) IN
   CASE c = "Db" -> R_Db(L, md, S0)                   [] c = "DbGrid" -> R_DbGrid(L, md, S0)
@@ -786,6 +1161,14 @@ ReadBody(c, L, md) == LET S0 == S0n(NTokOf(L)) IN
     [] c = "NeighMoving" -> R_NeighMoving(L, md, S0) [] c = "NeighCell" -> R_NeighCell(L, md, S0)
     [] c = "NeighImage" -> R_NeighImage(L, md, S0)   [] c = "Vario" -> R_Vario(L, md, S0)
     [] c = "Polygons" -> R_Polygons(L, md, S0)       [] c = "PolyLine2D" -> R_PolyLine2D(L, md, S0)
+    [] c = "DbLine" -> R_DbLine(L, md, S0)           [] c = "DbGraphO" -> R_DbGraphO(L, md, S0)
+    [] c = "AnamHermite" -> R_AnamHermite(L, md, S0) [] c = "AnamEmpirical" -> R_AnamEmpirical(L, md, S0)
+    [] c = "AnamDiscreteIR" -> R_AnamDiscreteIR(L, md, S0) [] c = "MeshEStandard" -> R_MeshEStandard(L, md, S0)
+    [] c = "MeshETurbo" -> R_MeshETurbo(L, md, S0)   [] c = "Faults" -> R_Faults(L, md, S0)
+    [] c = "Rule" -> R_Rule(L, md, S0)               [] c = "RuleShift" -> R_RuleShift(L, md, S0)
+    [] c = "FracEnviron" -> R_FracEnviron(L, md, S0)
+    [] c = "CSV" -> R_CSV(L, md)
+    [] c \in ExchangeFormats \cup {"Raw"} -> [ok |-> TRUE, ev |-> {}, at |-> "", o |-> <<>>]      \* (no reader model)
 
 Structs(c) ==
   CASE c = "Db" -> DbStructs                 [] c = "DbGrid" -> DbGridStructs
@@ -794,6 +1177,13 @@ Structs(c) ==
     [] c = "NeighMoving" -> NeighMovingStructs [] c = "NeighCell" -> NeighStructs
     [] c = "NeighImage" -> NeighImageStructs [] c = "Vario" -> VarioStructsV
     [] c = "Polygons" -> PolygonsStructs     [] c = "PolyLine2D" -> PolyLine2DStructs
+    [] c = "DbLine" -> DbLineStructs         [] c = "DbGraphO" -> DbGraphOStructs
+    [] c = "AnamHermite" -> AnamHermiteStructs [] c = "AnamEmpirical" -> AnamEmpiricalStructs
+    [] c = "AnamDiscreteIR" -> AnamDiscreteIRStructs [] c = "MeshEStandard" -> MeshShapes
+    [] c = "MeshETurbo" -> MeshETurboStructs [] c = "Faults" -> FaultsStructs
+    [] c = "Rule" -> RuleStructs             [] c = "RuleShift" -> RuleShiftStructs
+    [] c = "FracEnviron" -> FracEnvironStructs
+    [] c = "CSV" -> CSVStructs               [] c \in ExchangeFormats -> GridFmtStructs
 
 Doms(c, st) ==
   CASE c = "Db" -> DbDoms(st)                [] c = "DbGrid" -> DbGridDoms(st)
@@ -802,6 +1192,13 @@ Doms(c, st) ==
     [] c = "NeighMoving" -> NeighMovingDoms(st) [] c = "NeighCell" -> << <<1, 2, 5>> >>
     [] c = "NeighImage" -> << <<0, 1, 2>> >> \o Cst(st.ndim, <<1, 2, 3>>) [] c = "Vario" -> VarioDoms(st)
     [] c = "Polygons" -> PolygonsDoms(st)    [] c = "PolyLine2D" -> PolyLine2DDoms(st)
+    [] c = "DbLine" -> DbLineDoms(st)        [] c = "DbGraphO" -> DbGraphODoms(st)
+    [] c = "AnamHermite" -> AnamHermiteDoms(st) [] c = "AnamEmpirical" -> AnamEmpiricalDoms(st)
+    [] c = "AnamDiscreteIR" -> AnamDiscreteIRDoms(st) [] c = "MeshEStandard" -> MeshEStandardDoms(st)
+    [] c = "MeshETurbo" -> MeshETurboDoms(st) [] c = "Faults" -> FaultsDoms(st)
+    [] c = "Rule" -> << <<"0", "0.5", "-0.5">> >> [] c = "RuleShift" -> << << <<"1", "0", "0">>, <<"0.5", "1.23456789012345", "0">> >> >>
+    [] c = "FracEnviron" -> FracEnvironDoms(st)
+    [] c = "CSV" -> CSVDoms(st)              [] c \in ExchangeFormats -> GridFmtDoms(st)
 
 Build(c, st, v) ==
   CASE c = "Db" -> DbBuild(st, v)            [] c = "DbGrid" -> DbGridBuild(st, v)
@@ -811,10 +1208,19 @@ Build(c, st, v) ==
     [] c = "NeighImage" -> [ndim |-> st.ndim, skip |-> v[1], radius |-> SubSeq(v, 2, 1 + st.ndim)]
     [] c = "Vario" -> VarioBuild(st, v)
     [] c = "Polygons" -> PolygonsBuild(st, v) [] c = "PolyLine2D" -> PolyLine2DBuild(st, v)
+    [] c = "DbLine" -> DbLineBuild(st, v)    [] c = "DbGraphO" -> DbGraphOBuild(st, v)
+    [] c = "AnamHermite" -> AnamHermiteBuild(st, v) [] c = "AnamEmpirical" -> AnamEmpiricalBuild(st, v)
+    [] c = "AnamDiscreteIR" -> AnamDiscreteIRBuild(st, v) [] c = "MeshEStandard" -> MeshEStandardBuild(st, v)
+    [] c = "MeshETurbo" -> MeshETurboBuild(st, v) [] c = "Faults" -> FaultsBuild(st, v)
+    [] c = "Rule" -> RuleBuild(st, v)        [] c = "RuleShift" -> RuleShiftBuild(st, v)
+    [] c = "FracEnviron" -> FracEnvironBuild(st, v)
+    [] c = "CSV" -> CSVBuild(st, v)          [] c \in ExchangeFormats -> GridFmtBuild(st, v)
 
-FileW(c, o) == FileOf(Tag(c), WriteOps(c, o))
+FileW(c, o) == IF c = "CSV" THEN W_CSVLines(o) ELSE IF c \in ExchangeFormats THEN <<>> ELSE FileOf(Tag(c), WriteOps(c, o))
 \* createFromNF: header check, then the class reader
-ReadFnl(c, L, md, nl) == IF ~HeaderOK(L, Tag(c), nl) THEN [ok |-> FALSE, ev |-> {"badHeader"}, at |-> "header", o |-> <<>>] ELSE ReadBody(c, L, md)
+\* tag expected by the loader that exists for the class (RuleShift has no createFromNF: Rule::createFromNF is inherited)
+LoaderTag(c) == IF c = "RuleShift" THEN <<"Rule">> ELSE Tag(c)
+ReadFnl(c, L, md, nl) == IF c \in ExchangeFormats \cup {"CSV", "Raw"} THEN ReadBody(c, L, md) ELSE IF ~HeaderOK(L, LoaderTag(c), nl) THEN [ok |-> FALSE, ev |-> {"badHeader"}, at |-> "header", o |-> <<>>] ELSE ReadBody(c, L, md)
 ReadF(c, L, md) == ReadFnl(c, L, md, TRUE)
 
 Radices(c, si) == LET doms == Doms(c, Structs(c)[si]) IN [k \in DOMAIN doms |-> Len(doms[k])]
@@ -830,6 +1236,19 @@ VarioTraits(o) == IF \E d \in DOMAIN o.dirs : \E k \in DOMAIN o.dirs[d].vals : o
 Traits(c, o) == IF c \in {"Db", "DbGrid", "DbLine", "DbGraphO"} THEN DbTraits(o) ELSE IF c = "Vario" THEN VarioTraits(o) ELSE {}
 \* top-level fields in which two abstract objects of the same class differ
 DiffFields(a, b) == IF DOMAIN a # DOMAIN b THEN {"?"} ELSE {f \in DOMAIN a : a[f] # b[f]}
+
+-----------------------------------------------------------------------------
+(* File names: ASerializable::buildFileName(status, filename) with the container and prefix settings               *)
+(* (status 2 = write: container and prefix are always prepended; status 1 = read: they are prepended unless the       *)
+(* name is absolute, or has at most 2 characters: "filename.size() > 2 && filename[0] != '/' && filename[1] != ':'"). *)
+(* A name is abstracted by its kind: "long" (relative, more than 2 characters), "short" (relative, at most 2),        *)
+(* "abs" (absolute).  Path = the parts prepended to the name.  C08 (settings are part of the configuration space):    *)
+(* what dumpToNF writes, createFromNF must find.                                                                       *)
+PathParts(status, set, kind) == IF status = 2 \/ kind = "long" THEN <<set.container, set.prefix>> ELSE <<FALSE, FALSE>>
+SamePath(set, kind) == PathParts(2, set, kind) = PathParts(1, set, kind)
+PathCases == [k \in 1..12 |-> LET set == [container |-> ((k - 1) \div 6) = 1, prefix |-> (((k - 1) \div 3) % 2) = 1]
+                                  kind == <<"long", "short", "abs">>[((k - 1) % 3) + 1]
+                              IN [container |-> set.container, prefix |-> set.prefix, name |-> kind, same |-> SamePath(set, kind)]]
 
 -----------------------------------------------------------------------------
 (* C09: fault layer.  From a valid file L (sequence of lines of tokens):     *)
@@ -881,9 +1300,9 @@ FaultAt(L, c, j) ==
      ELSE [kind |-> "dropline", k |-> j - (10 * n1 + 2 + nl) + 1, t |-> ""]
 
 \* events of the transcribed reader that are memory-unsafe or unbounded in the real code
-UnsafeEvents == {"vecOverflow", "allocNegative", "allocHuge", "allocUnbounded", "loopUnbounded", "writeUnsized", "useAfterClear", "gridSizeMismatch", "badEnum", "badDims", "emptyPolyline"}
+UnsafeEvents == {"vecOverflow", "allocNegative", "allocHuge", "allocUnbounded", "loopUnbounded", "writeUnsized", "useAfterClear", "gridSizeMismatch", "badEnum", "badDims", "emptyPolyline", "emptyHermite", "badIndex", "badGrid", "badRuleNodes", "namesMismatch", "nameHash"}
 \* events by which the transcribed reader accepts what the intended reader refuses
-LenientEvents == {"eofDefault", "wordAsZero", "dbPartIgnored", "uninitReturn"}
+LenientEvents == {"eofDefault", "wordAsZero", "dbPartIgnored", "uninitReturn", "tableReadIgnored", "raggedShift", "namesMismatch"}
 
 \* Classification of a faulty file: verdict of the intended reader, prediction of the transcribed one, first divergence
 Classify(c, L, nl) ==
